@@ -222,6 +222,29 @@ def r2_format_taint(R) -> None:
 
 
 # ---------------------------------------------------------------------------
+def _name_or_fresh(f, n, k: ast.AST, s_: str, recv: ast.AST) -> bool:
+    """The key of `D.get(k, s)` is, on every path, either `s.name` or the running index of the enclosing enumerate() loop -
+    a key no entry has yet, so that `get` hands back its default `s` itself (which shares its own name)."""
+    if not (method_call(recv, 'get') and isinstance(k, ast.Name)) or not n.loops:
+        return False
+    lp = f.cfg.nodes[n.loops[-1]]
+    if not (lp.kind == 'for' and is_call(lp.ast.iter, 'enumerate') and isinstance(lp.ast.target, ast.Tuple) and isinstance(lp.ast.target.elts[0], ast.Name)):
+        return False
+    counter = lp.ast.target.elts[0].id
+    vals = f.lf.values_reaching(n.id, k.id)
+    if not vals:
+        return False
+    for (site, dv) in vals:
+        if dv is None:
+            return False
+        t_ = text(dv)
+        if t_ == f'{s_}.name' or t_ == counter:
+            continue
+        return False
+    # the counter must be used for unnamed symbols only, or a name could collide with... an int never equals a str key
+    return True
+
+
 def _is_name_of(f, nid: int, k: ast.AST, s_: str) -> bool:
     """`k` (a local) was set to `<s_>.name`, and `s_` has since only been rebound to `s_._replace(...)` without `name=`
     (a NamedTuple copy that keeps the name)."""
@@ -357,7 +380,7 @@ def _beliefs(R, f_escape: Escape):
         if site.func.endswith('resolve_by_type_pair'):
             # mixed None / non-None pairs arise only when a FUNCTION/KEYWORD symbol meets a variable-like one:
             # the SymbolError guard must come before the lag/lead resolution
-            c = Fn(R, f'{P}.Symbol.combine')
+            c = Fn(R, f'{P}.Symbol.combine', inline_methods=True)
             outer = [t for t in c.tests() if text(t.ast) in ('self.type != other.type', 'other.type != self.type')]
             calls = c.nodes_with(lambda x: is_call(x, 'resolve_by_type_pair'))
             raises = c.raises('SymbolError')
@@ -394,8 +417,8 @@ def _beliefs(R, f_escape: Escape):
                         d_, k_ = text(recv.value), recv.slice
                     else:
                         return (False, f'`{text(c)[:60]}` in {q.split(".")[-1]}: the receiver is neither D.get(name, s) nor D[name]')
-                    if f.etext(n.id, k_, stop=(d_,)) != f'{s_}.name' and not _is_name_of(f, n.id, k_, s_):
-                        return (False, f'`{text(c)[:60]}` in {q.split(".")[-1]}: the key `{text(k_)}` is not `{s_}.name`')
+                    if f.etext(n.id, k_, stop=(d_,)) != f'{s_}.name' and not _is_name_of(f, n.id, k_, s_) and not _name_or_fresh(f, n, k_, s_, recv):
+                        return (None, f'`{text(c)[:60]}` in {q.split(".")[-1]}: the key `{text(k_)}` is not read as `{s_}.name` (nor as a fresh key)')
                     dicts.add(d_)
             for d_ in dicts:
                 for n in f.cfg.nodes:
@@ -821,6 +844,14 @@ def r5c_no_overwrite(R) -> None:
                     raise Unknown(f'{q}: `{text(x)[:60]}` writes the result dictionary in a form not in the idiom table')
             for t in tg:
                 n_stores += 1
+                # the key is the symbol's name - or, for a symbol without one (verbatim code), something no other statement
+                # can share (the running index): a key made from the block's text merges two identical blocks into one
+                if isinstance(t.slice, ast.Name):
+                    for (site_, dv) in f.lf.values_reaching(n.id, t.slice.id):
+                        if dv is not None and isinstance(dv, ast.Attribute) and dv.attr in ('equation', 'code') and isinstance(dv.value, ast.Name):
+                            R.violation(q, f'verbatim-merged:{text(dv)}', f'`{text(f.cfg.nodes[site_].ast)[:50]}` files a symbol without a name (a verbatim block) under its '
+                                        f'text: a second, identical block meets the first under the same key and is merged into it - the statement is dropped silently',
+                                        where=f.where(f.cfg.nodes[site_].ast))
                 k = text(t.slice)
                 ke = f.etext(n.id, t.slice, stop=(D,))
                 v = f.expand(n.id, n.ast.value, stop=(D,))
@@ -856,16 +887,17 @@ def r5d_repeated_definition(R) -> None:
     D = text(st.ast.targets[0].value)
     comb = [x for x in ast.walk(st.ast.value) if method_call(x, 'combine')][0]
     sym = text(comb.args[0]) if comb.args else '?'
-    k = f.etext(st.id, st.ast.targets[0].slice, stop=(D, sym))
-    want = {(f'{sym}.equation is None', False), (f'{k} in {D}', True), (f'{D}[{k}].equation is None', False)}
     found = None
     other = []
     for r in f.raises():
         if st.loops[-1] not in r.loops:
             continue
+        # the key as it reads where the raise stands (a local that is the symbol's name on this path)
+        k = f.etext(r.id, st.ast.targets[0].slice, stop=(D, sym))
+        want = {(f'{sym}.equation is None', False), (f'{k} in {D}', True), (f'{D}[{k}].equation is None', False)}
         atoms = {(text(f.expand(tn.id, a, stop=(D, sym))), tr) for (a, tr, tn) in f.guard_atoms(r.id) if tn.loops and st.loops[-1] in tn.loops}
         # `name is None` (verbatim) on the other branch does not restrict named symbols
-        atoms = {(a, tr) for (a, tr) in atoms if a not in (f'{k} is None',)}
+        atoms = {(a, tr) for (a, tr) in atoms if not (a in (f'{k} is None', f'{sym}.name is None') and not tr)}
         if atoms == want and f.raised(r) in OWN_ERRORS:
             found = r
         elif atoms & want:
